@@ -13,7 +13,9 @@ RULE = ("(i) the committed corpus (2,308 strings) with the language pinned (test
         "reports); (ii) generated partial dates in every language (quick: 40 languages incl. the 20 most used; thorough: all 205): "
         "every non-empty subset of {day, month (own resolvable single-meaning name), 4-digit year, weekday (own name), HH:MM} in "
         "the locale's date order; (iii) digit-only strings for the no-spaces parser; (iv) custom formats lacking parts. Each "
-        "string x {loose, STRICT_PARSING, every non-empty subset of REQUIRE_PARTS} x two distant reference times, PARSERS "
+        "string x {loose, STRICT_PARSING, every non-empty subset of REQUIRE_PARTS} x pairs of distant reference times (6 pairs: mid-month, "
+        "first/last days of a month, leap day, Dec 31/Jan 1; quick: the mid-month pair + one rotating pair per string, thorough: all) x "
+        "PREFER_DATES_FROM {default, past, future} rotating, PARSERS "
         "restricted to timestamp/custom-formats/absolute-time (resp. no-spaces-time). Relations: strict in {None, loose}; "
         "strict(b1) == strict(b2); REQUIRE_PARTS result in {None, loose} and its required parts equal under both clocks; for "
         "strings built only from names, HH:MM and a 4-digit year, a result that requires an absent part must be None. "
@@ -27,6 +29,15 @@ TIMEOUT = {"quick": 900, "thorough": 3600}
 ANCHORS = [("dateparser.parser", "_check_strict_parsing"), ("dateparser.utils", "_get_missing_parts"),
            ("dateparser.parser", "_parser._results"), ("dateparser.parser", "_no_spaces_parser.parse")]
 B1, B2 = datetime(1987, 3, 14, 5, 6, 7), datetime(2031, 11, 29, 18, 45, 1)
+# pairs of distant reference times; besides the mid-month pair, pairs whose members sit on the first/last days of a month,
+# on a leap day and on either side of a year change (a clock-borrowing part shows where the borrowed day/month/year rolls over)
+BASE_PAIRS = [(B1, B2),
+              (datetime(1998, 3, 2, 0, 0, 1), datetime(2041, 10, 30, 23, 59)),
+              (datetime(2016, 2, 29, 12, 0), datetime(2023, 1, 1, 0, 0)),
+              (datetime(1999, 12, 31, 23, 59, 59), datetime(2020, 7, 5, 8, 0)),
+              (datetime(2012, 5, 1, 0, 0), datetime(2027, 8, 31, 13, 0)),
+              (datetime(1976, 11, 6, 9, 30), datetime(2034, 4, 25, 17, 0))]
+PREFS = [None, "past", "future"]
 ABS = ["timestamp", "custom-formats", "absolute-time"]
 NSP = ["no-spaces-time"]
 PART_SUBSETS = [list(c) for r in range(1, 4) for c in itertools.combinations(["day", "month", "year"], r)]
@@ -52,21 +63,24 @@ def P(s, lang, base, parsers, formats=None, **st):
         return e
 
 
-def relations(ctx, s, lang, parsers, formats=None, parts_present=None, kind="corpus"):
+def relations(ctx, s, lang, parsers, formats=None, parts_present=None, kind="corpus", pair=0, pref=None):
     """Run the whole configuration matrix for one string and check the relations."""
     res = {}
-    for bi, b in enumerate((B1, B2)):
-        loose = P(s, lang, b, parsers, formats)
-        strict = P(s, lang, b, parsers, formats, STRICT_PARSING=True)
+    extra = {"PREFER_DATES_FROM": pref} if pref else {}
+    ctx.count("base_pair:%d" % pair)
+    ctx.count("pref:%s" % pref)
+    for bi, b in enumerate(BASE_PAIRS[pair]):
+        loose = P(s, lang, b, parsers, formats, **extra)
+        strict = P(s, lang, b, parsers, formats, STRICT_PARSING=True, **extra)
         res[bi] = (loose, strict)
         ctx.ran(2)
         case = {"kind": kind, "string": s, "language": lang, "parsers": parsers, "formats": formats, "base": iso(b),
-                "parts_present": parts_present}
+                "parts_present": parts_present, "pair": pair, "pref": pref}
         if isinstance(strict, Exception) or isinstance(loose, Exception):
             ctx.count("raised(C02's subject)")
             continue
         if strict is not None:
-            ctx.nontrivial(lang, s, "strict", bi, repr(formats), tuple(parsers))
+            ctx.nontrivial(lang, s, "strict", bi, repr(formats), tuple(parsers), pair, pref)
             ctx.count("strict_non_none")
             if strict != loose:
                 ctx.violation(case, {"strict": strict, "loose": loose}, "strict in {None, loose}", "strict-changes-value",
@@ -76,36 +90,46 @@ def relations(ctx, s, lang, parsers, formats=None, parts_present=None, kind="cor
                               {"kind": kind, "config": "STRICT_PARSING", "custom_format": bool(formats)})
         elif parts_present is not None and not {"D", "M", "Y"} <= set(parts_present):
             ctx.count("strict_none_by_construction")
-            ctx.nontrivial(lang, s, "strict-none", bi, repr(formats))
+            ctx.nontrivial(lang, s, "strict-none", bi, repr(formats), pair, pref)
         for parts in PART_SUBSETS:
-            rp = P(s, lang, b, parsers, formats, REQUIRE_PARTS=parts)
+            rp = P(s, lang, b, parsers, formats, REQUIRE_PARTS=parts, **extra)
             ctx.ran()
             res[bi, tuple(parts)] = rp
             if isinstance(rp, Exception):
                 continue
             if rp is not None:
                 ctx.count("require_non_none")
-                ctx.nontrivial(lang, s, tuple(parts), bi, repr(formats), tuple(parsers))
+                ctx.nontrivial(lang, s, tuple(parts), bi, repr(formats), tuple(parsers), pair, pref)
                 if rp != loose:
                     feats = {"kind": kind, "config": "REQUIRE_PARTS"}
                     if formats:
                         # mechanism classifier: is the changed value the heuristic (format-free) reading?
-                        feats["equals_heuristic_reading"] = P(s, lang, b, parsers, None, REQUIRE_PARTS=parts) == rp
+                        feats["equals_heuristic_reading"] = P(s, lang, b, parsers, None, REQUIRE_PARTS=parts, **extra) == rp
                     ctx.violation(dict(case, require=parts), {"required": rp, "loose": loose}, "result in {None, loose}",
                                   "require-changes-value", feats)
                 if parts_present is not None and any(NEED[x] not in parts_present for x in parts):
                     ctx.violation(dict(case, require=parts), rp, None, "required-part-absent-but-result",
                                   {"kind": kind, "config": "REQUIRE_PARTS", "custom_format": bool(formats)})
     a, b_ = res.get(0, (None, None))[1], res.get(1, (None, None))[1]
-    if not isinstance(a, Exception) and not isinstance(b_, Exception) and a != b_:
-        ctx.violation({"kind": kind, "string": s, "language": lang, "parsers": parsers, "formats": formats},
+    # under PREFER_DATES_FROM past/future the century of a two-digit year is chosen relative to the reference (C09's clause):
+    # there the year is compared modulo 100
+    def same_full(x, y):
+        if pref in ("past", "future") and isinstance(x, datetime) and isinstance(y, datetime):
+            return (x.month, x.day, x.time(), x.year % 100) == (y.month, y.day, y.time(), y.year % 100)
+        return x == y
+
+    if not isinstance(a, Exception) and not isinstance(b_, Exception) and not same_full(a, b_):
+        ctx.violation({"kind": kind, "string": s, "language": lang, "parsers": parsers, "formats": formats, "pair": pair,
+                       "pref": pref, "parts_present": parts_present},
                       {"b1": a, "b2": b_}, "identical under both reference times", "strict-depends-on-clock",
                       {"kind": kind, "config": "STRICT_PARSING"})
     for parts in PART_SUBSETS:
         x, y = res.get((0, tuple(parts))), res.get((1, tuple(parts)))
         if isinstance(x, datetime) and isinstance(y, datetime):
-            if any(getattr(x, p) != getattr(y, p) for p in parts):
-                ctx.violation({"kind": kind, "string": s, "language": lang, "require": parts, "formats": formats},
+            if any((getattr(x, p) % 100 if (p == "year" and pref in ("past", "future")) else getattr(x, p)) !=
+                   (getattr(y, p) % 100 if (p == "year" and pref in ("past", "future")) else getattr(y, p)) for p in parts):
+                ctx.violation({"kind": kind, "string": s, "language": lang, "require": parts, "formats": formats, "pair": pair,
+                               "pref": pref, "parsers": parsers, "parts_present": parts_present},
                               {"b1": x, "b2": y}, "required parts identical under both reference times",
                               "required-part-depends-on-clock", {"kind": kind, "config": "REQUIRE_PARTS"})
 
@@ -130,7 +154,10 @@ def run_corpus(ctx, desc):
         if lang not in vocab_languages():
             ctx.count("corpus:no-language-dropped")
             continue
+        n_c = ctx.counters.get("corpus:strings", 0)
         relations(ctx, s, lang, ABS)
+        if ctx.tier == "thorough" or n_c % 2 == 0:
+            relations(ctx, s, lang, ABS, pair=1 + n_c % (len(BASE_PAIRS) - 1), pref=PREFS[n_c % 3])
         ctx.count("corpus:strings")
     ctx.sample({"corpus_strings": [r[0] for r in rows[:5]]})
 
@@ -205,7 +232,15 @@ def run_generated(ctx, desc):
                     s = " ".join(toks)
                     safe = tuple(p for p in ("M", "W", "Y", "T") if p in parts) == tuple(sorted(parts, key="MWYT".find)) \
                         and tuple(sorted(parts, key="MWYT".find)) in SAFE_SUBSETS and "D" not in parts
-                    relations(ctx, s, lang, ABS, parts_present=list(parts) if safe else None, kind="generated")
+                    n_g = ctx.counters.get("generated:strings", 0)
+                    pp = list(parts) if safe else None
+                    relations(ctx, s, lang, ABS, parts_present=pp, kind="generated")
+                    if ctx.tier == "thorough":
+                        for pi in range(1, len(BASE_PAIRS)):
+                            relations(ctx, s, lang, ABS, parts_present=pp, kind="generated", pair=pi, pref=PREFS[(n_g + pi) % 3])
+                    else:
+                        relations(ctx, s, lang, ABS, parts_present=pp, kind="generated", pair=1 + n_g % (len(BASE_PAIRS) - 1),
+                                  pref=PREFS[(n_g // 5) % 3])
                     ctx.count("generated:strings")
         ctx.count("generated:languages")
     ctx.sample({"generated_languages": mine[:8]})
@@ -215,7 +250,8 @@ def run_misc(ctx):
     # (iii) digit-only strings through the no-spaces parser
     for s in ["20150512", "201505", "0512", "2015", "12052015", "150512", "20150512 1045", "1045", "05122015104530",
               "2015051210", "151205", "31122015", "20153112", "1231", "12", "2015-05", "052015"]:
-        relations(ctx, s, "en", NSP, kind="no-spaces")
+        for pi in range(len(BASE_PAIRS)):
+            relations(ctx, s, "en", NSP, kind="no-spaces", pair=pi, pref=PREFS[pi % 3])
         ctx.count("misc:nospaces")
     # (iv) custom formats that lack parts: strictness must also apply when the caller supplies the format
     # by-construction 'part absent' only where no 1-2 digit token could be re-read as that part
@@ -225,7 +261,8 @@ def run_misc(ctx):
                 ("%A %d", "Tuesday 12", None), ("%j %Y", "132 2015", None), ("%B", "May", ["M"]),
                 ("%A, %B %Y", "Tuesday, May 2015", ["W", "M", "Y"]), ("%Y %H:%M", "2015 10:45", ["Y", "T"])]
     for fmt, s, present in fm_cases:
-        relations(ctx, s, "en", ABS, formats=[fmt], parts_present=present, kind="custom-format")
+        for pi in range(len(BASE_PAIRS)):
+            relations(ctx, s, "en", ABS, formats=[fmt], parts_present=present, kind="custom-format", pair=pi, pref=PREFS[pi % 3])
         ctx.count("misc:custom-format")
     # localised string through the translated custom-format path
     relations(ctx, "mai 2015", "fr", ABS, formats=["%B %Y"], parts_present=["M", "Y"], kind="custom-format")
@@ -267,4 +304,4 @@ def finalize(merged, tier, seed):
 def replay_case(ctx, v):
     c = v["case"]
     relations(ctx, c["string"], c["language"], c.get("parsers") or ABS, c.get("formats"), c.get("parts_present"),
-              c.get("kind", "corpus"))
+              c.get("kind", "corpus"), pair=c.get("pair", 0), pref=c.get("pref"))
